@@ -8,6 +8,7 @@
 //   P ret=<r> en=…                                      after every op outside callbacks
 // Masks are tbox bits (1 read, 2 write, 4 except).  Format matches lean/Driver/C03.lean.
 #include "vh.h"
+#include "vtime.h"
 #include "loopdrv.h"
 #include <dlfcn.h>
 #include <fcntl.h>
@@ -15,11 +16,14 @@
 #include <sys/select.h>
 #include <sys/socket.h>
 #include <unistd.h>
+#include <signal.h>
+#include <cerrno>
 #include <cstring>
 #include <map>
 #include <memory>
 #include <tbox/event/loop.h>
 #include <tbox/event/fd_event.h>
+#include <tbox/event/timer_event.h>
 #include <tbox/base/log_output.h>
 
 using namespace tbox::event;
@@ -38,7 +42,7 @@ static int tbox_bits(uint32_t ev) {
     int m = 0;
     if (ev & (EPOLLIN | EPOLLHUP)) m |= 1;
     if (ev & EPOLLOUT) m |= 2;
-    if (ev & EPOLLERR) m |= 4;
+    if (ev & (EPOLLERR | EPOLLPRI)) m |= 4;
     return m;
 }
 
@@ -95,7 +99,11 @@ extern "C" int select(int nfds, fd_set *r, fd_set *w, fd_set *e, struct timeval 
         }
     }
     int n = real(nfds, r, w, e, tv);
-    if (k) {
+    if (k && n < 0) {
+        int err = errno;
+        std::cout << s << " r=" << (err == EBADF ? "EBADF" : "ERR") << "\n";
+        errno = err;
+    } else if (k) {
         s += " r=";
         bool any = false;
         if (n > 0) for (int f = 0; f < kSlots; ++f) {
@@ -113,6 +121,7 @@ extern "C" int select(int nfds, fd_set *r, fd_set *w, fd_set *e, struct timeval 
 }
 
 // ---------------------------------------------------------------- descriptors
+static bool slot_open[kSlots];
 static void reopen_slot(int f) {
     int sv[2];
     if (socketpair(AF_UNIX, SOCK_STREAM | SOCK_NONBLOCK, 0, sv) != 0) { perror("socketpair"); _exit(3); }
@@ -122,8 +131,16 @@ static void reopen_slot(int f) {
     dup2(sv[0], W(f)); dup2(sv[1], Pe(f));
     close(sv[0]); close(sv[1]);
     g_reg.erase(W(f));
+    slot_open[f] = true;
 }
-static void drain(int fd) { char buf[4096]; while (read(fd, buf, sizeof(buf)) > 0) {} }
+// close the watched end and leave its number unused (the peer end stays with the harness)
+static bool kill_slot(int f) {
+    if (!slot_open[f]) return false;
+    close(W(f)); g_reg.erase(W(f)); slot_open[f] = false;
+    return true;
+}
+// several rounds: a read stops at (and then discards) a pending out-of-band mark
+static void drain(int fd) { char buf[4096]; for (int k = 0; k < 4; ++k) while (read(fd, buf, sizeof(buf)) > 0) {} }
 static void fill(int fd) { char buf[1024]; memset(buf, 'x', sizeof(buf)); while (write(fd, buf, sizeof(buf)) > 0) {} }
 
 // ---------------------------------------------------------------- events and scripts
@@ -131,6 +148,7 @@ struct Act { char kind; int a; int f; int mask; bool oneshot; };
 struct Obj { FdEvent *p = nullptr; int slot = -1; std::vector<Act> script; };
 static std::vector<Obj> objs;
 static Loop *loop = nullptr;
+static TimerEvent *g_timer = nullptr;     // op `tm`: a 1 ms persistent timer; every `pass` advances the virtual clock by 1 ms
 
 static std::string bits() {
     std::string s;
@@ -140,14 +158,13 @@ static std::string bits() {
 
 static int apply(const Act &a) {
     switch (a.kind) {
-        case 'c': {
-            for (auto &o : objs) if (o.p && o.slot == a.f) return 0;    // contract: no event object refers to it
-            reopen_slot(a.f); return 1;
-        }
-        case 'r': { char c = 'r'; (void)!write(Pe(a.f), &c, 1); return 1; }
-        case 'u': drain(W(a.f)); return 1;
-        case 'b': fill(W(a.f)); return 1;
-        case 'w': drain(Pe(a.f)); return 1;
+        case 'c': reopen_slot(a.f); return 1;             // also while event objects still refer to the number
+        case 'k': return kill_slot(a.f) ? 1 : 0;
+        case 'r': if (slot_open[a.f]) { char c = 'r'; (void)!write(Pe(a.f), &c, 1); } return 1;
+        case 'o': if (slot_open[a.f]) { char c = '!'; (void)!send(Pe(a.f), &c, 1, MSG_OOB); } return 1;
+        case 'u': if (slot_open[a.f]) drain(W(a.f)); return 1;
+        case 'b': if (slot_open[a.f]) fill(W(a.f)); return 1;
+        case 'w': if (slot_open[a.f]) drain(Pe(a.f)); return 1;
     }
     if (a.a < 0 || (size_t)a.a >= objs.size() || objs[a.a].p == nullptr) return 0;   // no such object (model: alive = false)
     Obj &o = objs[a.a];
@@ -168,7 +185,7 @@ static bool num(const std::string &s, int &v, int lim) {
     uint64_t u; if (!vh::to_u64(s, u) || u >= (uint64_t)lim) return false; v = (int)u; return true;
 }
 
-// "e1" "d0" "x2" "i3:0:1:o" "c2" "r0" "u0" "b1" "w1"
+// "e1" "d0" "x2" "i3:0:1:o" "c2" "k2" "r0" "o0" "u0" "b1" "w1"
 static bool parse_act(const std::string &w, Act &a) {
     if (w.size() < 2) return false;
     a = Act{w[0], -1, -1, 0, false};
@@ -184,7 +201,7 @@ static bool parse_act(const std::string &w, Act &a) {
             return true;
         }
         case 'e': case 'd': case 'x': return num(rest, a.a, 1000);
-        case 'c': case 'r': case 'u': case 'b': case 'w': return num(rest, a.f, kSlots);
+        case 'c': case 'k': case 'r': case 'o': case 'u': case 'b': case 'w': return num(rest, a.f, kSlots);
     }
     return false;
 }
@@ -203,6 +220,7 @@ static bool parse_script(const std::string &w, std::vector<Act> &out, int self) 
 }
 
 static void reset_all() {
+    delete g_timer; g_timer = nullptr;
     for (auto &o : objs) { FdEvent *p = o.p; o.p = nullptr; delete p; }
     objs.clear();
     for (int f = 0; f < kSlots; ++f) reopen_slot(f);
@@ -210,6 +228,8 @@ static void reset_all() {
 
 int main() {
     LogOutput_Disable();
+    vt::enable(1000, 1700000000000LL);
+    signal(SIGPIPE, SIG_IGN);
     std::cout << std::unitbuf;            // a sanitizer abort must not lose the lines already produced
     for (int f = 0; f < kSlots; ++f) reopen_slot(f);
     std::string kind = "epoll";
@@ -227,15 +247,36 @@ int main() {
                 if (w.empty()) continue;
                 if (w[0] == "case") {
                     reset_all(); std::cout << line << "\n";
-                    if (kind != "epoll") { kind = "epoll"; return false; }
-                    continue;
+                    kind = "epoll"; return false;             // every case gets a fresh loop (max_loop_entries_ starts over)
                 }
                 if (w[0] == "be" && w.size() == 2 && (w[1] == "epoll" || w[1] == "select")) {
                     reset_all(); std::cout << "P be=" << w[1] << "\n";
-                    if (kind != w[1]) { kind = w[1]; return false; }
+                    kind = w[1]; return false;
+                }
+                if (w[0] == "cmp" && w.size() == 1) { std::cout << "P cmp\n"; continue; }
+                if (w[0] == "pass" && w.size() == 1) { vt::advance_ms(1); want_k = true; pending_pass = true; return true; }
+                if (w[0] == "tm" && w.size() == 1 && g_timer == nullptr) {
+                    g_timer = loop->newTimerEvent("verif");
+                    g_timer->initialize(std::chrono::milliseconds(1), Event::Mode::kPersist);
+                    g_timer->setCallback([] { std::cout << "TM\n"; });
+                    g_timer->enable();
+                    std::cout << "P tm\n";
                     continue;
                 }
-                if (w[0] == "pass" && w.size() == 1) { want_k = true; pending_pass = true; return true; }
+                int nb = 0;
+                if (w[0] == "bulk" && w.size() == 2 && num(w[1], nb, 201) && nb >= 1) {
+                    // nb event objects initialised (never enabled) on nb further descriptor numbers, then all deleted:
+                    // nb shared records live at once, then freed - more than the pool keeps parked when nb > 64
+                    size_t base = objs.size();
+                    for (int i = 0; i < nb; ++i) {
+                        Obj o; o.p = loop->newFdEvent("verif-bulk");
+                        o.p->initialize(1000 + i, 0, Event::Mode::kPersist);
+                        objs.push_back(o);
+                    }
+                    for (int i = 0; i < nb; ++i) { FdEvent *p = objs[base + i].p; objs[base + i].p = nullptr; delete p; }
+                    std::cout << "P ret=1 en=" << bits() << "\n";
+                    continue;
+                }
                 if (w[0] == "new" && w.size() == 2) {
                     int id = (int)objs.size();
                     std::vector<Act> sc;
